@@ -42,7 +42,7 @@ def op_strategy(draw):
     k = draw(st.sampled_from(["copy", "copy", "deep_copy", "view_res", "view_atom", "atoms_list", "move", "move_to",
                               "rotate", "set_pos", "set_vel", "set_ids", "set_resids", "rename", "atom_set",
                               "iter_set", "share_pos", "same_array", "inplace", "inplace", "read_center", "read_center",
-                              "copy_from", "copy_from", "construct"]))
+                              "copy_from", "copy_from", "construct", "bad_rotate", "bad_rotate"]))
     a = draw(st.integers(0, 30))
     b = draw(st.integers(0, 30))
     return [k, a, b, draw(gen.SEEDS), draw(st.sampled_from(FIELDS)), draw(st.booleans())]
@@ -329,6 +329,13 @@ def check(case):
                 for c, p in zip(e.cells, newP):
                     model.cells[c]["pos"] = p
                     tainted.discard(c)
+            elif kind == "bad_rotate" and e.kind in ("mol", "res"):
+                # error-then-continue: a matrix that cannot rotate 3-vectors is refused and leaves the object untouched
+                bad = np.eye(2) if flag else np.eye(4)
+                try:
+                    o.rotate(bad)
+                except Exception:      # noqa: BLE001
+                    pass
             elif kind == "set_pos":
                 if e.kind in ("mol", "res"):
                     arr = rng.uniform(-5, 5, (len(e.cells), 3))
